@@ -6,7 +6,7 @@ import vlib
 from vlib import to_tangelo_gate, cyc_to_complex, frac_str
 
 CLAIM = {
- "text": "Proof (Lean 4), partial: model = NoiseModel validation, the channel-placement rule of the cirq translator, and the exact density matrix as a vector on 2n qubits. Proved: the operation list is, gate by gate and in gate order, the gate followed by its channels (list structure, concatenation of circuits); with no error registered for its name a gate gets no channel; every channel of a gate acts on exactly the gate's targets followed by its controls (one asymmetric-depolarising channel per qubit for 'pauli', one k-qubit channel for 'depol'); the cirq rate p(4^k-1)/4^k gives every non-identity Pauli string the probability p/4^k; a Pauli channel with zero rates and a depolarising channel with rate zero are the identity on every density matrix; validation rejects unsupported types, wrong parameter shapes and a second error of the same type on a gate. NOT proved: cirq's own channel implementations - compared numerically: the exact density matrix of the model (rational rates, Q(zeta_16) amplitudes) against cirq's DensityMatrixSimulator on the translated circuit, and the structural walk of the translated circuit operation by operation.",
+ "text": "Proof (Lean 4), partial: model = NoiseModel validation, the channel-placement rule of the cirq translator, and the exact density matrix as a vector on 2n qubits. Proved: the operation list is, gate by gate and in gate order, the gate followed by its channels (list structure, concatenation of circuits); with no error registered for its name a gate gets no channel; every channel of a gate acts on exactly the gate's targets followed by its controls (one asymmetric-depolarising channel per qubit for 'pauli', one k-qubit channel for 'depol'); the cirq rate p(4^k-1)/4^k gives every non-identity Pauli string the probability p/4^k; a Pauli channel with zero rates and a depolarising channel with rate zero are the identity on every density matrix, and therefore (theorem zero_rates_noiseless) for EVERY circuit, register size and set of noisy gate names the exact density matrix under a model whose rates are all zero equals the one without noise; validation rejects unsupported types, wrong parameter shapes and a second error of the same type on a gate. NOT proved: cirq's own channel implementations - compared numerically: the exact density matrix of the model (rational rates, Q(zeta_16) amplitudes) against cirq's DensityMatrixSimulator on the translated circuit, and the structural walk of the translated circuit operation by operation.",
  "note": "Trusted: Lean kernel + standard axioms; cirq's channels and density-matrix simulator (compared, not verified); numpy. Tangelo's depolarisation parameter is admitted up to 4/3 (the existing tests use it); rates are not range-checked by NoiseModel (cirq rejects impossible ones later).",
  "technique": "Lean 4 theorems on channel placement and rate arithmetic + structural correspondence on the cirq circuit + exact density-matrix comparison"}
 
@@ -229,7 +229,7 @@ def expectation_case(ctx, rng):
 
 def run(ctx):
     rng = ctx.rng
-    for i in range(ctx.n(90, 2500)):
+    for i in range(ctx.n(90, 900)):
         n = rng.randint(1, 3)
         names = [g for g in NAMES if n >= 2 or g in vlib.ONE_Q + vlib.ONE_Q_P]
         specs = vlib.rand_gate_list(rng, n, rng.randint(1, 7), names, corr=0.1, max_controls=2, ang_profile="generic")
@@ -238,7 +238,7 @@ def run(ctx):
         if not one_case(ctx, specs, n, errs) and len(ctx.violations) + len(ctx.mismatches) >= 3:
             return
     # multi-controlled gates whose name the translator rewrites (CNOT with several controls), noise keyed by either name
-    for i in range(ctx.n(16, 300)):
+    for i in range(ctx.n(16, 120)):
         n = 3
         qs = rng.sample(range(3), 3)
         name = rng.choice(["CNOT", "CNOT", "CX", "CZ", "CRX"])
@@ -252,7 +252,7 @@ def run(ctx):
             return
     if not malformed(ctx):
         return
-    for i in range(ctx.n(4, 40)):
+    for i in range(ctx.n(4, 20)):
         if not expectation_case(ctx, rng):
             return
     # history: a model extended after its first use must apply the new errors
